@@ -35,6 +35,9 @@ def run(ck, tier):
     from . import c11x
     c11x.run_descending(ck, F)
     c11x.run_type_ids(ck, F)
+    c11x.run_rows_buffer(ck, F)
+    from . import pairs as _pairs
+    _pairs.check_cross(ck, F, "C11.raw-validity-needs-offset", ["arrow_row"], 0)
     ck.rule("C11.table-agreement", "every DataType constructor that supports_datatype definitely accepts is routed by Codec::new, row_lengths, encode_column and decode_column", floor=30)
     variants = dtm.enum_variants(F, "arrow_schema::datatype::DataType")
     cache = {}
